@@ -219,10 +219,11 @@ def class_source(spec, sfx, out):
   for i in range(spec['nin']): L.append(f'    s.in{i} = InPort( Bits8 )')
   for i in range(spec['nout']): L.append(f'    s.out{i} = OutPort( Bits8 )')
   for w in spec['wires']: L.append(f'    s.{w} = Wire( Bits8 )')
+  if spec.get('kconst'): L += ['    s.kc = Wire( Bits8 )', '    s.kc //= k']
   lists = {}
   for slot, subspec in kids(spec):
     m = re.fullmatch(r'(\w+)\[(\d+)\]', slot)
-    inst = f'{cname(subspec, sfx)}( {subspec["k"]} )'
+    inst = f'{cname(subspec, sfx)}( k={subspec["k"]} )'     # keyword: set_param merges into the keyword arguments
     if m: lists.setdefault(m.group(1), []).append(inst)
     else: L.append(f'    s.{slot} = {inst}')
   for ln, insts in lists.items(): L.append(f'    s.{ln} = [ {", ".join(insts)} ]')
@@ -289,10 +290,22 @@ def load(workdir, spec, tag):
 
 # --------------------------------------------------------------------------------------------- model side
 
-def hier(spec, pre=()):
+def param_matches(param, path):
+  """does `top.set_param('top.<a>.<b>.construct', ...)` reach the component at `path`? pymtl3 compares every name for
+  equality, or — when the pattern contains `*` — with re.match (NamedObject.__setattr_for_elaborate__)"""
+  toks = param.split('.')[1:-1]
+  return len(toks) == len(path) and all(a == b or ('*' in a and re.compile(a).match(b) is not None) for a, b in zip(toks, path))
+
+def eff_k(spec, path, params):
+  """value of the construct argument `k` the component at `path` ends up with"""
+  ks = [v for p, v in params if param_matches(p, path)]
+  return ks[-1] if ks else spec['k']
+
+def hier(spec, pre=(), params=(), base=()):
   """[(path, comp)] for the driver: sigs mports blks uu rdu wru mcs conns consts"""
   sigs = [['clk', 'in'], ['reset', 'in']] + [[f'in{i}', 'in'] for i in range(spec['nin'])] + \
-         [[f'out{i}', 'out'] for i in range(spec['nout'])] + [[w, 'wire'] for w in spec['wires']]
+         [[f'out{i}', 'out'] for i in range(spec['nout'])] + [[w, 'wire'] for w in spec['wires']] + \
+         ([['kc', 'wire']] if spec.get('kconst') else [])
   mports = ([['ping', 'callee']] if spec['mport'] else []) + ([['cp', 'caller']] if spec.get('caller') else [])
   blks = []
   for it in spec['items']:
@@ -306,9 +319,9 @@ def hier(spec, pre=()):
     conns.append([[[slot], 'reset'], [[], 'reset']])
   if spec.get('caller'): conns.append([[[], 'cp'], [[spec['caller'][0]], 'ping']])
   comp = [bool(spec.get('ph')), sigs, mports, blks, spec['uu'], spec['rdu'], spec['wru'], spec['mcs'], conns,
-          [[a, str(v)] for a, v in spec['consts']]]
+          [[a, str(v)] for a, v in spec['consts']] + ([[[[], 'kc'], str(eff_k(spec, tuple(base) + tuple(pre), params))]] if spec.get('kconst') else [])]
   out = [[list(pre), comp]]
-  for slot, subspec in kids(spec): out += hier(subspec, pre + (slot,))
+  for slot, subspec in kids(spec): out += hier(subspec, pre + (slot,), params, base)
   return out
 
 FIELDS = ('comp', 'sig', 'mport', 'blk', 'ff', 'once', 'read', 'write', 'call', 'uu', 'rdu', 'wru', 'mc', 'edge',
